@@ -202,6 +202,14 @@ Definition revocationDial (allowed : list bstr) (host : bstr) (answer : option (
     else DRejected
   end.
 
+(* One dial context lives as long as its http.Client and serves every connection the client opens
+   (each CRL distribution point, each OCSP request, each redirect hop).  The Go closure keeps NO state
+   between calls (it captures only resolver, dial and allowed, and never writes to them), so a client's
+   whole dialling history is the request-wise map of revocationDial. *)
+Record dialReq := mkReq { rqHost : bstr; rqAnswer : option (list ip); rqScript : list bool }.
+Definition revocationDialHistory (allowed : list bstr) (reqs : list dialReq) : list dialOutcome :=
+  map (fun q => revocationDial allowed (rqHost q) (rqAnswer q) (rqScript q)) reqs.
+
 (* revocationHTTPClient: the allow set is allowedRevocationHostSet(conf.AllowedRevocationHosts) *)
 Definition revocationClientDial (allowedHosts : list bstr) (host : bstr) (answer : option (list ip))
            (script : list bool) : dialOutcome :=
@@ -261,3 +269,7 @@ Definition imageBoxDial (answer : option (list ip)) (script : list bool) : dialO
     then DDialled [dialTarget (hd [] ips)] (hd false script)
     else DRejected
   end.
+
+(* history of one image-box dial context (equally stateless) *)
+Definition imageBoxDialHistory (reqs : list dialReq) : list dialOutcome :=
+  map (fun q => imageBoxDial (rqAnswer q) (rqScript q)) reqs.
